@@ -40,14 +40,15 @@ type cfg struct {
 	ops              int
 	ival, freq       int // Throttling interval / Emit frequency (virtual ms)
 	seed             int
-	caps             []int  // Join: per-input capacities
-	work             int    // Emit/Unfold: the user function takes this long (virtual ms) before it returns
-	dl               int    // context deadline (virtual ms after the start); 0 = a plain WithCancel context
-	ek               string // [errkinds] kind of the error a failing element returns (errkinds_test.go); "" = plain
+	caps             []int         // Join: per-input capacities
+	unit             time.Duration // what one time unit of the script is (ival, freq, t<d>): a millisecond, or a microsecond with unit=us
+	work             int           // Emit/Unfold: the user function takes this long (virtual ms) before it returns
+	dl               int           // context deadline (virtual ms after the start); 0 = a plain WithCancel context
+	ek               string        // [errkinds] kind of the error a failing element returns (errkinds_test.go); "" = plain
 }
 
 func parseCfg(s string) cfg {
-	c := cfg{pkg: "pipe", mode: "pure", par: 1, fn: 2, fail: map[int]bool{}, ops: 1, ival: 1000, freq: 1000}
+	c := cfg{pkg: "pipe", mode: "pure", par: 1, fn: 2, fail: map[int]bool{}, ops: 1, ival: 1000, freq: 1000, unit: time.Millisecond}
 	for _, kv := range strings.Fields(s) {
 		p := strings.SplitN(kv, "=", 2)
 		if len(p) != 2 {
@@ -85,6 +86,10 @@ func parseCfg(s string) cfg {
 			c.dl = iv
 		case "work":
 			c.work = iv
+		case "unit":
+			if p[1] == "us" {
+				c.unit = time.Microsecond
+			}
 		case "seed":
 			c.seed = iv
 		case "ek": // [errkinds]
@@ -582,7 +587,7 @@ func runScript(t *testing.T, line string) (res string) {
 				r = e.release(v)
 			case 't':
 				d, _ := strconv.Atoi(mv[1:])
-				time.Sleep(time.Duration(d) * time.Millisecond)
+				time.Sleep(time.Duration(d) * c.unit)
 				r = "ok"
 			case 'z':
 				synctest.Wait()
